@@ -27,7 +27,17 @@ template<> struct Codec<int64_t> {
 };
 template<> struct Codec<std::string> {
   static const char* name() { return "str"; }
-  static std::string make(long idx) { return (idx % 3 == 0 ? "item-" : "a much longer frequent item key #") + std::to_string(idx); }
+  // text keys, and binary keys with NUL bytes at the start, in the middle and at the end (the item is the WHOLE std::string)
+  static std::string make(long idx) {
+    std::string d = std::to_string(idx);
+    switch (idx % 6) {
+      case 0: return "item-" + d;
+      case 1: case 2: return "a much longer frequent item key #" + d;
+      case 3: return std::string("fi\0item-", 8) + d;
+      case 4: return std::string("\0lead-", 6) + d;
+      default: return "trail-" + d + std::string("\0", 1);
+    }
+  }
   static std::string bytes(const std::string& v) { return v; }
   // serde<std::string>: uint32 length + characters
   static size_t parse(const uint8_t* p, size_t left, std::string& out) {
@@ -36,6 +46,15 @@ template<> struct Codec<std::string> {
 };
 
 struct Row { long x; long long est, lb, ub; };
+// wide profile (64-bit weights): numbers are logged as 4 little-endian limbs of 20 bits (spec/WideNum.tla), else as plain integers
+static bool g_wide = false;
+static std::string num(long long v) {
+  if (!g_wide) return std::to_string(v);
+  std::string s = "[";
+  for (int k = 0; k < 4; k++) { if (k) s += ","; s += std::to_string((long long)(((unsigned long long)v >> (20 * k)) & 0xfffffULL)); }
+  return s + "]";
+}
+template<class C> static std::string numlist(const C& c) { std::string s = "["; bool f = true; for (auto v : c) { if (!f) s += ","; f = false; s += num((long long)v); } return s + "]"; }
 
 // opaque image token: the bytes themselves up to 4 KB, beyond that a 128-bit digest + length (tokens are only compared for equality)
 static Ev& img_tok(Ev& e, const char* key, const void* p, size_t n) {
@@ -79,7 +98,7 @@ template<class T> struct Driver {
     std::string s = "[";
     for (size_t k = 0; k < r.size(); k++) {
       if (k) s += ",";
-      s += "[" + std::to_string(r[k].x) + "," + std::to_string(r[k].est) + "," + std::to_string(r[k].lb) + "," + std::to_string(r[k].ub) + "]";
+      s += "[" + std::to_string(r[k].x) + "," + num(r[k].est) + "," + num(r[k].lb) + "," + num(r[k].ub) + "]";
     }
     return s + "]";
   }
@@ -96,18 +115,18 @@ template<class T> struct Driver {
     std::map<long, long long> cur;
     for (auto& r : rows(*sk[i])) cur[r.x] = r.lb;
     std::string s = "["; bool first = true; size_t nch = 0;
-    auto put = [&](long x, long long v) { nch++; if (!first) s += ","; first = false; s += "[" + std::to_string(x) + "," + std::to_string(v) + "]"; };
+    auto put = [&](long x, long long v) { nch++; if (!first) s += ","; first = false; s += "[" + std::to_string(x) + "," + num(v) + "]"; };
     for (auto& kv : cur) { auto it = prev[i].find(kv.first); if (it == prev[i].end() || it->second != kv.second) put(kv.first, kv.second); }
     for (auto& kv : prev[i]) if (!cur.count(kv.first)) put(kv.first, 0);
     prev[i] = cur;
-    if (nch > 64 && !cur.count(-1)) return e.il("cd", dense(cur));
+    if (nch > 64 && !cur.count(-1)) return e.raw("cd", numlist(dense(cur)));
     return e.raw("d", s + "]");
   }
   // rows as returned, plus their dense form when there are many
   Ev& putrows(Ev& e, const std::vector<Row>& r) {
     e.raw("rows", rows_json(r));
     bool unknown = false; for (auto& x : r) unknown = unknown || x.x < 1;
-    if (r.size() > 64 && !unknown) e.il("cd", dense(r));
+    if (r.size() > 64 && !unknown) e.raw("cd", numlist(dense(r)));
     return e;
   }
   // lg_cur_map_size is not a getter: it is printed by to_string() (design-level observable, compared in tier B only)
@@ -118,7 +137,7 @@ template<class T> struct Driver {
   }
   std::string xfields;     // expected design-model state of a replayed behaviour, appended to the next mutating event
   Ev& scal(Ev& e, int i) {
-    e.i("off", (long long)sk[i]->get_maximum_error()).i("total", (long long)sk[i]->get_total_weight()).i("n", sk[i]->get_num_active_items())
+    e.raw("off", num((long long)sk[i]->get_maximum_error())).raw("total", num((long long)sk[i]->get_total_weight())).i("n", sk[i]->get_num_active_items())
      .i("lgCur", lgcur(*sk[i]));
     if (restored[i]) e.b("restored", true);
     if (!xfields.empty()) { e.s += xfields; xfields.clear(); }
@@ -154,7 +173,15 @@ template<class T> struct Driver {
     }
   }
   bool bigseg = false;
+  bool wide = false;
   long draw_weight() {
+    if (wide) {   // totals cross 2^53 (where a double stops representing every integer) and stay below 2^61
+      int c = (int)g.below(100);
+      if (c < 10) return (long)((1ULL << 53) + g.below(2000));
+      if (c < 28) return (long)((1ULL << g.range(48, 57)) | (g.next() & ((1ULL << 48) - 1)));
+      if (c < 70) return 1;
+      return g.range(1, 1000);
+    }
     if (profile == 3) return 1;
     if (bigseg) return g.chance(70) ? 1 : g.range(1, 10);
     int c = (int)g.below(100);
@@ -167,13 +194,13 @@ template<class T> struct Driver {
     ver[i]++;
     T q = item(x);
     Ev e(w == 0 ? "UpdateZero" : "Update");
-    e.i("id", i).i("x", x).i("w", w).b("rv", rv);
-    delta(scal(e, i).i("lbx", (long long)sk[i]->get_lower_bound(q)), i).emit();
+    e.i("id", i).i("x", x).raw("w", num(w)).b("rv", rv);
+    delta(scal(e, i).raw("lbx", num((long long)sk[i]->get_lower_bound(q))), i).emit();
     return (long long)sk[i]->get_maximum_error() != off0;
   }
   // logged integers must stay below 2^31 (and 7 * total inside the contract): a merge tree that would exceed the cap restarts the target
-  static constexpr long long TOTAL_CAP = 50000000LL;
-  bool fits(int dst, long long add) { return (long long)sk[dst]->get_total_weight() + add <= TOTAL_CAP; }
+  long long total_cap() const { return wide ? (1LL << 61) : 50000000LL; }
+  bool fits(int dst, long long add) { return (long long)sk[dst]->get_total_weight() + add <= total_cap(); }
   void do_merge(int dst, int src, bool rv) {
     auto ord = table_order(*sk[src]);
     if (rv) sk[dst]->merge(std::move(*sk[src])); else sk[dst]->merge(*sk[src]);
@@ -216,7 +243,7 @@ template<class T> struct Driver {
       std::vector<long long> it, es, lb, ub;
       for (auto& x : res) { it.push_back(x.x); es.push_back(x.est); lb.push_back(x.lb); ub.push_back(x.ub); }
       Ev f("x"); f.s = "{\"t\":\""; f.s += nfn ? "NFN" : "NFP"; f.s += "\"";
-      f.i("thr", t).b("dflt", dflt).il("it", it).il("est", es).il("lb", lb).il("ub", ub);
+      f.raw("thr", num(t)).b("dflt", dflt).il("it", it).raw("est", numlist(es)).raw("lb", numlist(lb)).raw("ub", numlist(ub));
       if (k) fr += ","; fr += f.s + "}";
     }
     e.raw("fr", fr + "]").emit();
@@ -287,8 +314,9 @@ template<class T> struct Driver {
   }
 
   // big: one long segment on a map beyond the purge sample size (lg_max 11: 1537 active entries at a purge, sampled median)
-  void segment(long seg, long events, int maxlg, bool big = false) {
-    Ev("Begin").i("seg", seg).str("type", Codec<T>::name()).emit();
+  void segment(long seg, long events, int maxlg, bool big = false, bool wide_ = false) {
+    wide = wide_; g_wide = wide_;
+    Ev("Begin").i("seg", seg).str("type", Codec<T>::name()).b("wide", wide).emit();
     rev.clear();
     for (int i = 0; i < NS; i++) { sk[i].reset(); prev[i].clear(); ver[i] = 0; restored[i] = false; }
     for (int b = 0; b < NB; b++) blive[b] = false;
@@ -465,6 +493,7 @@ int main(int argc, char** argv) {
   int serde_pct = (int)vt::argl(argc, argv, "--serde", 3);
   long big = vt::argl(argc, argv, "--big", 0);
   long slotadv = vt::argl(argc, argv, "--slotadv", 0);
+  long wide = vt::argl(argc, argv, "--wide", 0);     // 1: every segment uses 64-bit weights, numbers logged as limbs (TraceFreqItemsW.cfg)
   vt::open_out(vt::arg(argc, argv, "--out", "/dev/stdout"));
   vt::Rng g(seed);
   const char* rdir = vt::arg(argc, argv, "--replay-dir", nullptr);
@@ -480,8 +509,9 @@ int main(int argc, char** argv) {
   }
   for (long seg = 0; seg < segments; seg++) {
     bool b = seg < big;
-    if ((seg + seed) % 2 == 0) { Driver<int64_t> d(g, serde_pct); d.segment(seg, events, maxlg, b); }
-    else { Driver<std::string> d(g, serde_pct); d.segment(seg, events, maxlg, b); }
+    if ((seg + seed) % 2 == 0) { Driver<int64_t> d(g, serde_pct); d.segment(seg, events, maxlg, b, wide != 0); }
+    else { Driver<std::string> d(g, serde_pct); d.segment(seg, events, maxlg, b, wide != 0); }
+    g_wide = false;
   }
   for (long k = 0; k < slotadv && !rdir; k++) {
     if ((k + seed) % 2 == 0) { Driver<int64_t> d(g, serde_pct); d.slot_segment(500 + k); }
